@@ -30,8 +30,9 @@ def suite_green(patch):
 
 
 def main():
-    for patch in sys.argv[1:]:
-        green, msg = suite_green(patch)
+    args = [a for a in sys.argv[1:] if not a.startswith('--')]
+    for patch in args:
+        green, msg = (True, 'not run') if '--no-tests' in sys.argv else suite_green(patch)
         if not green:
             print('%s: SKIPPED (%s)' % (patch, msg))
             continue
